@@ -482,6 +482,24 @@ def rule_r2(chk, prog, cg, zone):
                           '/ a regular expression): ValueError (or '
                           'AttributeError on a non-leaf) in the main '
                           'process', loc=m.loc(c), nontrivial=True)
+        # ---- (g) .index(x) raises ValueError when x is absent
+        for c in walk_no_nested(f):
+            if isinstance(c, ast.Call) and isinstance(
+                    c.func, ast.Attribute) and c.func.attr == 'index' and \
+                    c.args and not in_guarded_try(c, f):
+                recv = unparse(c.func.value)
+                needle = unparse(c.args[0])
+                facts = facts_at(f, c)
+                ok = (f'{needle} in {recv}', True) in facts or (
+                    f'{needle} not in {recv}', False) in facts
+                nobl += 1
+                chk.check('C04.R2', where, unparse(c)[:50], ok,
+                          f'{recv}.index({needle}) raises ValueError when '
+                          f'{needle} does not occur (no dominating '
+                          f'"{needle} in {recv}"): in the main process this '
+                          'is a traceback that ends the run (e.g. a comment '
+                          'on the last line of an input without a final '
+                          'line feed)', loc=m.loc(c), nontrivial=True)
         # ---- asserts on input data
         for st in walk_no_nested(f):
             if isinstance(st, ast.Assert) and mn in ('smtlib', ):
@@ -882,6 +900,75 @@ def rule_r5(chk, prog):
                       loc=cli.loc(n.ast), nontrivial=True)
 
 
+def rule_r7(chk, prog):
+    chk.rule('C04.R7', 'what the main process pickles for the workers is a '
+             'materialised list: the proposals of one task are never handed '
+             'on as the (possibly lazy) result of a mutator method')
+    dm = prog.mod('strategy_ddmin')
+    nx = dm.func('TaskGenerator.__next__')
+    n = 0
+    # does the generator pickle proposals at all (in __next__ or in a method
+    # it delegates the task construction to)?
+    scopes = [nx]
+    for c in calls_in(nx):
+        if isinstance(c.func, ast.Attribute) and isinstance(
+                c.func.value, ast.Name) and c.func.value.id == 'self':
+            h_ = dm.funcs.get(f'TaskGenerator.{c.func.attr}')
+            if h_ is not None and h_ not in scopes:
+                scopes.append(h_)
+    pickles = [c for sc in scopes for c in calls_in(sc)
+               if call_name(c) == 'pickle.dumps' and c.args]
+    for c in pickles[:1]:
+        # the producers of the proposals: methods of the generator whose
+        # result is bound in __next__
+        for st in walk_no_nested(nx):
+            a = st.targets[0] if isinstance(st, ast.Assign) and isinstance(
+                st.targets[0], ast.Name) else None
+            if a is None:
+                continue
+            if isinstance(st, ast.Assign) and unparse(
+                    st.targets[0]) == a.id and isinstance(
+                        st.value, ast.Call) and isinstance(
+                            st.value.func, ast.Attribute) and isinstance(
+                                st.value.func.value, ast.Name) and \
+                    st.value.func.value.id == 'self':
+                q = f'TaskGenerator.{st.value.func.attr}'
+                h = dm.funcs.get(q)
+                if h is None:
+                    continue
+                for r in walk_no_nested(h):
+                    if not isinstance(r, ast.Return) or r.value is None:
+                        continue
+                    n += 1
+                    v = r.value
+                    lazy = None
+                    for x in ast.walk(v):
+                        if isinstance(x, ast.Call) and isinstance(
+                                x.func, ast.Attribute) and \
+                                x.func.attr in PROTOCOL:
+                            lazy = x
+                    wrapped = isinstance(v, ast.Call) and call_name(v) in (
+                        'list', 'tuple', 'sorted')
+                    ok = lazy is None or wrapped
+                    if isinstance(v, ast.Name):
+                        ds = [s_.value for s_ in walk_no_nested(h)
+                              if isinstance(s_, ast.Assign)
+                              and unparse(s_.targets[0]) == v.id]
+                        ok = not any(
+                            isinstance(d_, ast.Call) and isinstance(
+                                d_.func, ast.Attribute)
+                            and d_.func.attr in PROTOCOL for d_ in ds)
+                    chk.check('C04.R7', f'strategy_ddmin.{q}', r, ok,
+                              'the result of a mutator method (a generator '
+                              'for most mutators) is returned as is and '
+                              'then pickled in the main process for the '
+                              'workers: TypeError "cannot pickle generator" '
+                              'aborts the run as soon as tasks are '
+                              'distributed (-j > 1)', loc=dm.loc(r),
+                              nontrivial=True)
+    chk.floor('C04.R7', 'returns feeding the pickled task payload', n, 2)
+
+
 def run(tier):
     prog = Program()
     chk = Check(
@@ -917,6 +1004,7 @@ def run(tier):
     chk.guard(rule_r3, chk, prog)
     chk.guard(rule_r4, chk, prog)
     chk.guard(rule_r5, chk, prog)
+    chk.guard(rule_r7, chk, prog)
     # an interrupt must reach main()'s handler (status 1): shared with C06.R3
     from . import c06
     sub = Check('C06', 'other', tier, [], [])
